@@ -90,10 +90,14 @@ pub struct Recorder<'a> {
     pub progress: Option<std::path::PathBuf>,
     pub last_id: Option<usize>,
     pub observe_every: usize,
+    /// the driver's OWN record of the labels it bound on each vertex since it created it (steering must not rely on
+    /// what the object claims a vertex holds: stale contents of a recycled slot would steer the driver around the bug)
+    pub own: BTreeMap<(usize, usize), Vec<String>>,
 }
 
 impl<'a> Recorder<'a> {
     pub fn reset(&mut self, w: &World) {
+        self.own.clear();
         writeln!(self.out, "{}", json!({"op":"reset","t":self.tid,"h":0,"n":w.n,"cap":w.cap})).unwrap();
     }
     /// execute and record; returns false when the object panicked (trace ends)
@@ -117,9 +121,35 @@ impl<'a> Recorder<'a> {
                 });
             }
         }
+        let was_present = match &c.call {
+            Call::Add { v } => w.gs.get(c.h).and_then(|x| x.as_ref()).and_then(|g| g.keys().ok()).map(|k| k.contains(v)).unwrap_or(false),
+            _ => false,
+        };
         let ret = w.exec(&c);
         if let crate::exec::Ret::Id(i) = &ret {
             self.last_id = Some(*i);
+        }
+        if !ret.is_panic() {
+            match &c.call {
+                Call::Add { v } if !was_present => {
+                    self.own.insert((c.h, *v), vec![]);
+                }
+                Call::Bind { v1, a, .. } => {
+                    let e = self.own.entry((c.h, *v1)).or_default();
+                    if !e.contains(a) {
+                        e.push(a.clone());
+                    }
+                }
+                Call::New { .. } | Call::Clone { .. } | Call::Reload { .. } | Call::Slice { .. } | Call::Merge { .. } | Call::Deploy { .. } => {
+                    // bookkeeping for copies and composite calls is not kept: forget the handles they write
+                    let hs: Vec<usize> = match &c.call {
+                        Call::Clone { dst } | Call::Reload { dst } | Call::Slice { dst, .. } => vec![*dst],
+                        _ => vec![c.h],
+                    };
+                    self.own.retain(|(h, _), _| !hs.contains(h));
+                }
+                _ => {}
+            }
         }
         let after = w.gs.get(c.h).and_then(|x| x.as_ref()).map(|g| g.snap());
         let mut e = w.event(self.tid, &c, &ret, before == after);
@@ -184,7 +214,7 @@ pub fn run(o: &DriveOpts, out: &mut dyn Write, tid: usize) -> Value {
     }
     w.labels = labels.clone();
     let datas = data_pool();
-    let mut rec = Recorder { out, tid, events: 0, mirror_next: false, progress: o.progress.clone(), last_id: None, observe_every: if o.profile == "observe" { 25 } else { 0 } };
+    let mut rec = Recorder { out, tid, events: 0, mirror_next: false, progress: o.progress.clone(), last_id: None, observe_every: if o.profile == "observe" { 25 } else { 0 }, own: BTreeMap::new() };
     rec.reset(&w);
     let win = o.window.min(o.cap);
     let mut ok = true;
@@ -313,11 +343,11 @@ pub fn run(o: &DriveOpts, out: &mut dyn Write, tid: usize) -> Value {
                         2 if pres.len() >= 2 => {
                             let v1 = *pres.choose(&mut rng).unwrap();
                             let v2 = *pres.choose(&mut rng).unwrap();
-                            let have = w.g(0).kids(v1).unwrap_or_default();
+                            let have: Vec<String> = rec.own.get(&(0, v1)).cloned().unwrap_or_else(|| w.g(0).kids(v1).unwrap_or_default().into_iter().map(|x| x.0).collect());
                             if v1 == v2 {
                                 continue;
                             }
-                            let a = if have.len() >= o.n { have.choose(&mut rng).map(|x| x.0.clone()).unwrap() } else { labels.choose(&mut rng).unwrap().clone() };
+                            let a = if have.len() >= o.n { have.choose(&mut rng).cloned().unwrap() } else { labels.choose(&mut rng).unwrap().clone() };
                             Call::Bind { v1, v2, a }
                         }
                         3 if !pres.is_empty() => Call::Put { v: *pres.choose(&mut rng).unwrap(), d: datas.choose(&mut rng).unwrap().clone() },
@@ -655,7 +685,8 @@ pub fn run(o: &DriveOpts, out: &mut dyn Write, tid: usize) -> Value {
                 } else {
                     true
                 };
-                let have = &vw.nlabels[&v1];
+                // prefer the driver's own record; fall back to what the object shows (copies, composite calls)
+                let have = rec.own.get(&(0, v1)).unwrap_or(&vw.nlabels[&v1]);
                 let a = if have.len() >= o.n || (rng.gen_bool(0.3) && !have.is_empty()) {
                     have.choose(&mut rng).cloned()
                 } else {
